@@ -75,7 +75,34 @@ def sim_cfg(k, ident):
             "retry": bool(k["retry"]), "server_name": "192.0.2.10" if ident.startswith("ip-") else None}
 
 
+def impostor_job(job):
+    """An active impostor at the level of tls.Context (the forging adversary of the C11 driver): the client offers a session
+    ticket; the impostor, which holds neither the resumption secret nor a valid certificate, answers with a ServerHello that
+    claims to have selected the PSK (with its own cipher suite and keys derived without the PSK), EncryptedExtensions and a
+    Finished that is correct for those keys - no Certificate, no CertificateVerify."""
+    import aioquic.tls as tls
+    from aioquic.buffer import Buffer
+    from . import c11
+    lab = c11.Lab(tls, Buffer)
+    k = job["k"]
+    init = {f: k[f] for f in KFIELDS}
+    init.update(tam="none", fair=True)
+    lines = [dict(init, ev="init")]
+    if lab.client_ticket is None:
+        raise MachineryError("impostor case: no session ticket could be obtained")
+    case = c11.run_case(lab, {"role": "client", "pskOffered": True, "certReq": False, "tickets": False}, job["names"])
+    last = case[-1]
+    if last.get("post") == "CLIENT_POST_HANDSHAKE":
+        lines.append({"ev": "completed", "ep": "c", "version": "v1", "iversion": "v1", "cipher": "", "alpn": "", "resumed": bool(last["resumed"]),
+                      "early": False})
+    lines.append({"ev": "end", "quiescent": True})
+    return {"lines": lines, "msgs": {}, "tampered": 0, "raised": [], "vn": 0, "retry": 0,
+            "done": ["c"] if len(lines) == 3 else [], "codes": []}
+
+
 def job_fn(job):
+    if job.get("impostor"):
+        return impostor_job(job)
     from ..c03_mitm import MitmSim, trace_lines
     warnings.filterwarnings("ignore")         # cryptography's deprecation warnings about altered certificates
     k, ident = job["k"], job["ident"]
@@ -95,6 +122,11 @@ def job_fn(job):
             s1.close()
         ticket = s1.tickets[-1] if s1.tickets else None
     cfg = dict(base)
+    if ticket is not None and not k["zrtt"] and job["seed"] % 2:
+        # a ticket that does not allow early data (the application stored it without that permission): the ClientHello then
+        # offers the PSK without an early_data extension - resumption without 0-RTT
+        import dataclasses
+        ticket = dataclasses.replace(ticket, max_early_data_size=None)
     if ticket is not None:
         cfg["session_ticket"] = ticket
     if k["spsk"]:
@@ -365,6 +397,10 @@ def run(check):
         j = rnd.choice(pool if i % 4 else pool2)
         jobs.append(dict(j, script=script.random_script(rnd, rnd.choice([4, 8, 16]), LOSSY), seed=j["seed"], **{"class": "lossy:" + j["class"]}))
 
+    # ---- active impostor (tls.Context level): a party without the resumption secret and without a certificate
+    for names in (["SHpskbad", "EE", "FIN"], ["SHpskbad", "EEearly", "FIN"], ["SHpskbad", "EE", "CERT", "CV", "FIN"]):
+        jobs.append({"k": dict(DEFAULT_K, cert="selfsigned", cpsk=True, spsk=False), "ident": "selfsigned", "tamper": None, "script": [],
+                     "seed": 4242, "class": "impostor", "impostor": True, "names": names})
     t0 = time.time()
     results = run_jobs(jobs)
     phases["runs"] = round(time.time() - t0, 1)
